@@ -2,6 +2,7 @@
 from __future__ import annotations
 
 import ast
+from dataclasses import replace
 
 from ..alias import MUTATORS, AliasCtx
 from ..callgraph import Resolver, own_nodes
@@ -55,8 +56,22 @@ def spec(name, direction):
     return t[name]
 
 
+def pinned(v, pins: dict):
+    """the specified value on a path where some counts are pinned to a literal (`if n_best == 1:`)"""
+    if not pins:
+        return v
+    if isinstance(v, L) and len(v.window) == 2 and v.window[1] in pins:
+        return replace(v, window=(v.window[0], pins[v.window[1]]))
+    if isinstance(v, Tup):
+        return Tup(tuple(pinned(x, pins) for x in v.items))
+    return v
+
+
 def canon(v):
     """Equivalences that do not change the specified observable."""
+    if isinstance(v, L) and len(v.window) == 2 and v.window[1] == "1" and v.window[0] in ("FIRST", "LAST") and v.order == "DESC":
+        # the one most extreme element: first of DESC == last of ASC
+        return replace(v, order="ASC", window=("LAST" if v.window[0] == "FIRST" else "FIRST", "1"))
     if isinstance(v, E):
         # first of DESC == last of ASC (any extremal element satisfies the statement)
         if v.order == "DESC":
@@ -90,7 +105,8 @@ def run(prog: Program, res: Result) -> None:
         for direction in (MIN, MAX):
             n_eval += 1
             try:
-                got, ev = evaluate(prog, name, direction, ok=lambda g, _n=name, _d=direction: canon(g) == canon(spec(_n, _d)))
+                got, ev = evaluate(prog, name, direction,
+                                   ok=lambda g, pins, _n=name, _d=direction: canon(pinned(g, pins)) == canon(pinned(spec(_n, _d), pins)))
             except OrdDeviation as exc:
                 res.ob(False)
                 res.add(Finding(P, "C16.R1-helper-spec", f"helpers.{name}::{direction}", fi.loc(),
@@ -99,8 +115,10 @@ def run(prog: Program, res: Result) -> None:
             except OrdUnknown as exc:
                 res.errors.append(f"ORD cannot evaluate helpers.{name}: {exc}")
                 continue
-            want = spec(name, direction)
-            ok = canon(got) == canon(want)
+            from ..ord import pins_of
+            pins_ = pins_of(ev.path)
+            want = pinned(spec(name, direction), pins_)
+            ok = canon(pinned(got, pins_)) == canon(want)
             # a windowed/ordered list must be fresh (not the caller's list)
             res.ob(ok, f"{name}[{direction}] = {show(got)}", f"{name}:{direction}")
             if not ok:
@@ -523,7 +541,9 @@ VARIANTS = [
     V("trim-with-wrong-size", _A, "        self._population = sort_and_trim(new_population, self._config.population_size)",
       "        self._population = sort_and_trim(new_population, len(new_population))", "C16.R5"),
     V("best-agent-uses-worst", _H, "    b_agent, = best_agents(population, 1, task_type)", "    b_agent, = worst_agents(population, 1, task_type)", "C16.R1"),
+    V("special-agents-fast-path-ignores-direction", _H, "        raise ValueError(\"Either n_best or n_worst must be provided\")\n\n    best = []", "        raise ValueError(\"Either n_best or n_worst must be provided\")\n\n    if n_best == 1 and n_worst == 1:\n        costs = [agent.cost for agent in population]\n        return [population[int(np.argmin(costs))]], [population[int(np.argmax(costs))]]\n\n    best = []", "C16.R1"),
     # twins
+    V("twin-special-agents-fast-path", _H, "        raise ValueError(\"Either n_best or n_worst must be provided\")\n\n    best = []", "        raise ValueError(\"Either n_best or n_worst must be provided\")\n\n    if n_best == 1 and n_worst == 1:\n        costs = [agent.cost for agent in population]\n        lo = population[int(np.argmin(costs))]\n        hi = population[int(np.argmax(costs))]\n        if task_type == TaskType.MAX:\n            return [hi], [lo]\n        return [lo], [hi]\n\n    best = []", None),
     V("twin-sorted-builtin", _H, "    pop_new = population.copy()\n    pop_new.sort(key=lambda agent: agent.cost, reverse=(task_type == TaskType.MAX))\n    return pop_new",
       "    return sorted(population, key=lambda agent: agent.cost, reverse=(task_type == TaskType.MAX))", None),
     V("twin-greedy-mirrored-compare", _A, "        return new_agent if new_agent.cost < agent_copy.cost else agent_copy",
